@@ -14,7 +14,7 @@
    External components are Section variables: F (numbers), r32 (what a float32 cell keeps), rint (python int()),
    cval (the constants 0, 1, 1/2, -1), ofnat (a row index as a number), weq (== on numbers).
    No proofs in this file. *)
-From Coq Require Import String List Bool Arith.
+From Coq Require Import String List Bool Arith ZArith.
 Import ListNotations.
 Open Scope string_scope.
 
@@ -30,6 +30,11 @@ Record pentry := { pe_arg : string; pe_name : string; pe_at0 : bool; pe_atpos : 
 Record rtable := { rt_kind : string; rt_args : list pentry; rt_unread : list string; rt_gattrs : list (string * string) }.
 Record bentry := { be_kind : string; be_inst : bool; be_mixed : bool; be_unitw : bool; be_cols : bool; be_zerod : bool;
                    be_variant : string; be_fields : list (string * string); be_lost : list string }.
+(* one probe of the writer's column-selection decision: the rows exported (variant, field values scaled by 1024; all
+   values are multiples of 1/1024), the field that is off its semantic default ("" = none, "*" = several), and the column
+   names the real exportHdf5 wrote *)
+Record selprobe := { sp_kind : string; sp_off : string; sp_rows : list (string * list (string * Z)); sp_names : list (option string) }.
+
 Record h5gen := {
   g_writer : list wtable; g_reader : list rtable; g_builder : list bentry;
   g_sized_pop_w : list (string * gsrc); g_sized_pop_r : list (string * string);
@@ -37,7 +42,8 @@ Record h5gen := {
   g_net_w : list (string * gsrc); g_net_r : list (string * string);
   g_prop_prefix : bool; g_none_notes : list (option string); g_absent_temp : option string;
   g_builder_strings : list (string * list (string * bool));
-  g_refusals : list (string * bool); g_delay_units : list (string * bool) }.
+  g_refusals : list (string * bool); g_delay_units : list (string * bool); g_select : list selprobe;
+  g_zero : list (string * string * string * bool) }.
 
 (* ------------------------------------------------------------------ small boolean equalities *)
 Definition cst_eqb (a b : cst) : bool :=
@@ -493,3 +499,39 @@ Section Codec.
   Definition write_net (g : h5gen) (cs : list construct) : option (list node) := all_some (map (write_construct g) cs).
   Definition load_net (g : h5gen) (ns : list node) : option (list csem) := all_some (map (load_node g) (order ns)).
 End Codec.
+
+(* ------------------------------------------------------------------ the exact instance: numbers that are multiples of 1/1024
+   (float32 numbers), represented by Z scaled by 1024: r32 = int() = identity, == is Z.eqb *)
+Definition zc (c : cst) : Z := match c with CZero => 0 | COne => 1024 | CHalf => 512 | CMinusOne => -1024 end%Z.
+Fixpoint frow (l : list (string * Z)) (f : string) : Z :=
+  match l with [] => 0%Z | (k, v) :: t => if String.eqb k f then v else frow t f end.
+
+Fixpoint names_eqb (a b : list (option string)) : bool :=
+  match a, b with [], [] => true | x :: a', y :: b' => ostr_eqb x y && names_eqb a' b' | _, _ => false end.
+
+(* the column-selection decision of the writer, probed on the code, is the one of the model (select_table, the function the
+   round-trip theorem is about): for every probe the model picks a table with exactly the column names the code wrote *)
+Definition probe_rows (p : selprobe) : list (trow Z) := map (fun r => (fst r, frow (snd r))) (sp_rows p).
+Definition selprobe_ok (g : h5gen) (p : selprobe) : bool :=
+  match select_table Z zc Z.eqb g (sp_kind p) (probe_rows p) with
+  | Some wt => names_eqb (wt_names wt) (sp_names p)
+  | None => false end.
+(* ... and every field with a semantic default has been probed alone (the only field off its default), for every kind *)
+Definition select_covers (g : h5gen) : bool :=
+  forallb (fun kind => forallb (fun f => match sem_default f with
+                                         | Some _ => existsb (fun p => String.eqb (sp_kind p) kind && String.eqb (sp_off p) f) (g_select g)
+                                         | None => true end) (sfields kind)
+                       && existsb (fun p => String.eqb (sp_kind p) kind && String.eqb (sp_off p) "") (g_select g))
+          ["projection"; "electrical"; "continuous"; "inputlist"; "population"].
+Definition select_ok (g : h5gen) : bool := forallb (selprobe_ok g) (g_select g) && select_covers g.
+(* a value 0 in a field whose default is not 0 (fractions, weights) is written as 0, for every variant that carries the field *)
+Definition zero_ok (g : h5gen) : bool :=
+  forallb (fun x => snd x) (g_zero g)
+  && forallb (fun kind => forallb (fun v => forallb (fun f =>
+        match sem_default f with
+        | Some CZero | None => true
+        | Some _ => existsb (fun x => String.eqb (fst (fst (fst x))) kind && String.eqb (snd (fst (fst x))) v && String.eqb (snd (fst x)) f) (g_zero g)
+        end) (vfields kind v)) (variants_of kind)) ["projection"; "electrical"; "continuous"; "inputlist"].
+Definition failing_zero (g : h5gen) : list (string * string * string) := map (fun x => fst x) (filter (fun x => negb (snd x)) (g_zero g)).
+Definition failing_select (g : h5gen) : list (string * string * list (option string)) :=
+  map (fun p => (sp_kind p, sp_off p, sp_names p)) (filter (fun p => negb (selprobe_ok g p)) (g_select g)).
